@@ -203,3 +203,230 @@ Proof.
   transitivity (S l * (S l + 1)); [exact H | lia].
 Qed.
 End Shape.
+
+(* ------------------------------------------------------------------ *)
+(* the eight-fold fill (base_four_symm.py:434-539)                     *)
+(* ------------------------------------------------------------------ *)
+Section Fill.
+Context {A : Type} (azero : A).
+Notation R4 := (list (list (list (list A)))).
+
+Lemma key_eqb_eq (x y : key) : key_eqb x y = true <-> x = y.
+Proof.
+  destruct x as [[[a b] c] d], y as [[[a' b'] c'] d']. unfold key_eqb.
+  rewrite !andb_true_iff, !Nat.eqb_eq. split.
+  - intros [[[-> ->] ->] ->]. reflexivity.
+  - intros E. injection E as -> -> -> ->. auto.
+Qed.
+
+Lemma pairs_in n i j : In (i, j) (pairs n) <-> i <= j < n.
+Proof.
+  unfold pairs. rewrite in_flat_map. split.
+  - intros [i' [Hi Hj]]. apply in_seq in Hi. apply in_map_iff in Hj. destruct Hj as [j' [E Hj']].
+    injection E as -> ->. apply in_seq in Hj'. lia.
+  - intros H. exists i. split; [apply in_seq; lia|]. apply in_map_iff. exists j. split; [reflexivity|].
+    apply in_seq. lia.
+Qed.
+
+Lemma tails_in {B} (l tl : list B) : In tl (tails l) -> tl <> [] /\ exists pre, l = pre ++ tl.
+Proof.
+  induction l as [|x r IH]; cbn [tails]; [intros []|]. intros [<-|H].
+  - split; [discriminate|]. now exists [].
+  - destruct (IH H) as [Hn [pre ->]]. split; [assumption|]. now exists (x :: pre).
+Qed.
+
+(* two members of a list: one of them heads a tail that contains the other *)
+Lemma tails_cover {B} (l : list B) p q : In p l -> In q l ->
+  exists r, (In (p :: r) (tails l) /\ In q (p :: r)) \/ (In (q :: r) (tails l) /\ In p (q :: r)).
+Proof.
+  induction l as [|x r IH]; [intros []|]. intros Hp Hq. cbn [tails].
+  destruct Hp as [<-|Hp].
+  - exists r. left. split; [now left|exact Hq].
+  - destruct Hq as [<-|Hq].
+    + exists r. right. split; [now left|now right].
+    + destruct (IH Hp Hq) as [r' [[H1 H2]|[H1 H2]]]; exists r'; [left|right]; (split; [now right|assumption]).
+Qed.
+
+(* soundness: whatever is stored was written for a canonical quartet i <= j, k <= l *)
+Lemma all_writes_in n (bf : nat -> nat -> nat -> nat -> R4) (x : key) (v : R4) :
+  In (x, v) (all_writes azero n bf) ->
+  exists i j k l, i <= j < n /\ k <= l < n /\ In (x, v) (writes8 azero i j k l (bf i j k l)).
+Proof.
+  unfold all_writes. rewrite in_flat_map. intros [tl [Htl Hin]].
+  destruct (tails_in _ _ Htl) as [_ [pre Hpre]].
+  destruct tl as [|[i j] r]; [destruct Hin|].
+  rewrite in_flat_map in Hin. destruct Hin as [[k l] [Hkl Hw]].
+  exists i, j, k, l. split; [|split; [|exact Hw]]; apply pairs_in; rewrite Hpre; apply in_or_app; right.
+  - now left.
+  - exact Hkl.
+Qed.
+
+(* completeness: every key below n is written *)
+Lemma all_writes_complete n (bf : nat -> nat -> nat -> nat -> R4) a b c d :
+  a < n -> b < n -> c < n -> d < n ->
+  exists v, In ((a, b, c, d), v) (all_writes azero n bf).
+Proof.
+  intros Ha Hb Hc Hd.
+  set (i := Nat.min a b). set (j := Nat.max a b). set (k := Nat.min c d). set (l := Nat.max c d).
+  assert (Hij : In (i, j) (pairs n)) by (apply pairs_in; unfold i, j; lia).
+  assert (Hkl : In (k, l) (pairs n)) by (apply pairs_in; unfold k, l; lia).
+  assert (Eab : (a, b) = (i, j) \/ (a, b) = (j, i)).
+  { unfold i, j. destruct (Nat.le_ge_cases a b);
+      [left; rewrite Nat.min_l, Nat.max_r by assumption | right; rewrite Nat.min_r, Nat.max_l by assumption];
+      reflexivity. }
+  assert (Ecd : (c, d) = (k, l) \/ (c, d) = (l, k)).
+  { unfold k, l. destruct (Nat.le_ge_cases c d);
+      [left; rewrite Nat.min_l, Nat.max_r by assumption | right; rewrite Nat.min_r, Nat.max_l by assumption];
+      reflexivity. }
+  clearbody i j k l.
+  destruct (tails_cover _ _ _ Hij Hkl) as [r [[Ht Hq]|[Ht Hq]]].
+  - (* (k,l) in the tail headed by (i,j): writes8 i j k l *)
+    assert (W : forall v, In v (writes8 azero i j k l (bf i j k l)) -> In v (all_writes azero n bf)).
+    { intros v Hv. unfold all_writes. apply in_flat_map. exists ((i, j) :: r). split; [exact Ht|].
+      apply in_flat_map. exists (k, l). split; assumption. }
+    destruct Eab as [E1|E1], Ecd as [E2|E2]; injection E1 as -> ->; injection E2 as -> ->;
+      eexists; apply W; unfold writes8.
+    + left. reflexivity.
+    + right. left. reflexivity.
+    + right. right. left. reflexivity.
+    + right. right. right. left. reflexivity.
+  - (* (i,j) in the tail headed by (k,l): writes8 k l i j, images 5-8 *)
+    assert (W : forall v, In v (writes8 azero k l i j (bf k l i j)) -> In v (all_writes azero n bf)).
+    { intros v Hv. unfold all_writes. apply in_flat_map. exists ((k, l) :: r). split; [exact Ht|].
+      apply in_flat_map. exists (i, j). split; assumption. }
+    destruct Eab as [E1|E1], Ecd as [E2|E2]; injection E1 as -> ->; injection E2 as -> ->;
+      eexists; apply W; unfold writes8.
+    + do 4 right. left. reflexivity.
+    + do 6 right. left. reflexivity.
+    + do 5 right. left. reflexivity.
+    + do 7 right. left. reflexivity.
+Qed.
+
+Lemma lookup_in (store : list (key * R4)) (x : key) :
+  (exists v, In (x, v) store) -> In (x, lookup store x) store.
+Proof.
+  intros [v Hv]. unfold lookup.
+  destruct (find (fun p => key_eqb (fst p) x) (rev store)) as [p|] eqn:E.
+  - apply find_some in E. destruct E as [Hin Hk]. apply key_eqb_eq in Hk. apply in_rev in Hin.
+    destruct p as [kx vx]. cbn [fst snd] in *. now subst kx.
+  - exfalso. apply in_rev in Hv. pose proof (find_none _ _ E (x, v) Hv) as Hf.
+    cbn [fst] in Hf. rewrite (proj2 (key_eqb_eq x x) eq_refl) in Hf. discriminate.
+Qed.
+
+(* the cell (a, b, c, d) of the store is one of the eight images of a computed block *)
+Lemma lookup_all_writes n (bf : nat -> nat -> nat -> nat -> R4) a b c d :
+  a < n -> b < n -> c < n -> d < n ->
+  exists i j k l, i <= j < n /\ k <= l < n /\
+    In ((a, b, c, d), lookup (all_writes azero n bf) (a, b, c, d)) (writes8 azero i j k l (bf i j k l)).
+Proof.
+  intros Ha Hb Hc Hd. apply all_writes_in. apply lookup_in. now apply all_writes_complete.
+Qed.
+
+(* the images, spelled out: the key is the permuted quartet and the value the block with the
+   matching axes exchanged *)
+Lemma writes8_images i j k l (blk : R4) x v : In (x, v) (writes8 azero i j k l blk) ->
+  (x = (i, j, k, l) /\ v = blk) \/
+  (x = (i, j, l, k) /\ v = swapax azero 2 3 blk) \/
+  (x = (j, i, k, l) /\ v = swapax azero 0 1 blk) \/
+  (x = (j, i, l, k) /\ v = swapax azero 0 1 (swapax azero 2 3 blk)) \/
+  (x = (k, l, i, j) /\ v = swapax azero 0 2 (swapax azero 1 3 blk)) \/
+  (x = (l, k, i, j) /\ v = swapax azero 0 1 (swapax azero 0 2 (swapax azero 1 3 blk))) \/
+  (x = (k, l, j, i) /\ v = swapax azero 2 3 (swapax azero 0 2 (swapax azero 1 3 blk))) \/
+  (x = (l, k, j, i) /\ v = swapax azero 0 3 (swapax azero 1 2 blk)).
+Proof.
+  unfold writes8. cbn [In].
+  intros [E|[E|[E|[E|[E|[E|[E|[E|[]]]]]]]]]; injection E as <- <-; tauto.
+Qed.
+End Fill.
+
+(* ------------------------------------------------------------------ *)
+(* the assembled ERI array                                             *)
+(* ------------------------------------------------------------------ *)
+Section Asm.
+Context {F : Type} (K : Fops F).
+
+(* the processed block of the shells (i, j, k, l) of a basis *)
+Definition eri_pblock (basis : list (shell F)) (i j k l : nat) : list (list (list (list F))) :=
+  let ps := map (prep K) basis in
+  let d := dummy_p K in
+  let sh_of p := mkSh (s_sph (p_shell p)) (p_T p) (p_norm p) in
+  let q x := nth x ps d in
+  block4 (f0 K) (fadd K) (fmul K)
+    (s_sph (p_shell (q i))) (s_sph (p_shell (q j))) (s_sph (p_shell (q k))) (s_sph (p_shell (q l)))
+    (sh_of (q i)) (sh_of (q j)) (sh_of (q k)) (sh_of (q l))
+    (eri_block K (p_shell (q i)) (p_shell (q j)) (p_shell (q k)) (p_shell (q l))).
+
+Definition eri_cell (basis : list (shell F)) (a b c d : nat) : list (list (list (list F))) :=
+  lookup (all_writes (f0 K) (length basis) (eri_pblock basis)) (a, b, c, d).
+
+Lemma nth_map_dummy {B C} (f : B -> C) (l : list B) (db : B) (dc : C) i :
+  i < length l -> nth i (map f l) dc = f (nth i l db).
+Proof. intros Hi. rewrite (nth_indep _ dc (f db)) by (now rewrite map_length). apply map_nth. Qed.
+
+Lemma all_writes_ext {A} (az : A) n (f g : nat -> nat -> nat -> nat -> list (list (list (list A)))) :
+  (forall i j k l, i < n -> j < n -> k < n -> l < n -> f i j k l = g i j k l) ->
+  all_writes az n f = all_writes az n g.
+Proof.
+  intros H. unfold all_writes.
+  assert (E : forall tl, In tl (tails (pairs n)) ->
+    match tl with [] => [] | (i, j) :: _ => flat_map (fun '(k, l) => writes8 az i j k l (f i j k l)) tl end
+    = match tl with [] => [] | (i, j) :: _ => flat_map (fun '(k, l) => writes8 az i j k l (g i j k l)) tl end).
+  { intros tl Htl. destruct (tails_in _ _ Htl) as [_ [pre Hpre]].
+    destruct tl as [|[i j] r]; [reflexivity|].
+    assert (Hij : i <= j < n) by (apply pairs_in; rewrite Hpre; apply in_or_app; right; now left).
+    assert (Hall : forall kl, In kl ((i, j) :: r) -> fst kl <= snd kl < n).
+    { intros [k l] Hkl. apply pairs_in. rewrite Hpre. apply in_or_app. now right. }
+    revert Hall. generalize ((i, j) :: r). intros L HL.
+    induction L as [|[k l] L IH]; [reflexivity|]. cbn [flat_map].
+    pose proof (HL (k, l) (or_introl eq_refl)) as Hkl. cbn [fst snd] in Hkl.
+    rewrite (H i j k l) by lia. f_equal. apply IH. intros kl Hin. apply HL. now right. }
+  induction (tails (pairs n)) as [|tl T IH]; [reflexivity|]. cbn [flat_map].
+  rewrite E by now left. f_equal. apply IH. intros t Ht. apply E. now right.
+Qed.
+
+(* chemist array without transform = nested concatenation of the cells *)
+Lemma eri_integral_cells (basis : list (shell F)) :
+  eri_integral K basis None false = four_concat (length basis) (eri_cell basis).
+Proof.
+  unfold eri_integral, four_symm, eri_cell. cbv zeta. rewrite !map_length.
+  rewrite (all_writes_ext (f0 K) (length basis) _ (eri_pblock basis)); [reflexivity|].
+  intros i j k l Hi Hj Hk Hl. unfold eri_pblock. cbv zeta.
+  rewrite !(nth_map_dummy _ (map (prep K) basis) (dummy_p K)) by (now rewrite map_length).
+  reflexivity.
+Qed.
+
+(* every cell of the assembled array is one of the eight permuted images of the processed block
+   of a canonical quartet (i <= j, k <= l) of shells of the basis *)
+Lemma eri_cell_is_image (basis : list (shell F)) a b c d :
+  let n := length basis in
+  a < n -> b < n -> c < n -> d < n ->
+  exists i j k l, i <= j < n /\ k <= l < n /\
+    In ((a, b, c, d), eri_cell basis a b c d) (writes8 (f0 K) i j k l (eri_pblock basis i j k l)).
+Proof. intros n. unfold eri_cell. apply lookup_all_writes. Qed.
+End Asm.
+
+(* with a transform: T is applied to each of the four indices of the untransformed chemist array
+   (construct_array_lincomb), and the physicist exchange comes last *)
+Lemma eri_integral_transform {F} (K : Fops F) (basis : list (shell F)) (t : list (list F)) :
+  eri_integral K basis (Some t) false
+  = lincomb4 (f0 K) (fadd K) (fmul K) t (eri_integral K basis None false).
+Proof. reflexivity. Qed.
+
+(* ------------------------------------------------------------------ *)
+(* the hypotheses above are satisfiable                                *)
+(* ------------------------------------------------------------------ *)
+(* a 1 x 2 x 3 x 1 array of distinct numbers: rectangular, in-range indices exist, and the
+   exchanged array really differs from the source *)
+Definition ex_arr : list (list (list (list nat))) := [[[[1]; [2]; [3]]; [[4]; [5]; [6]]]].
+Lemma ex_arr_rect : rect4 1 2 3 1 ex_arr /\ 0 < 1 /\ 0 < 2 /\ 0 < 3.
+Proof. unfold rect4, ex_arr. repeat (split || constructor || lia). Qed.
+Lemma ex_arr_swap :
+  0 < length ex_arr /\ 1 < length (hd [] ex_arr) /\ 2 < length (hd [] (hd [] ex_arr)) /\
+  0 < length (hd [] (hd [] (hd [] ex_arr))) /\
+  get4 0 (swapax 0 1 2 ex_arr) 0 2 1 0 = 6 /\ get4 0 ex_arr 0 1 2 0 = 6 /\
+  swapax 0 1 2 ex_arr = [[[[1]; [4]]; [[2]; [5]]; [[3]; [6]]]].
+Proof. cbn. repeat split; lia. Qed.
+
+(* a one-shell basis has the cell (0,0,0,0) *)
+Lemma ex_cell_range {F} (s : shell F) : let n := length [s] in 0 < n /\ 0 < n /\ 0 < n /\ 0 < n.
+Proof. cbn. lia. Qed.
